@@ -4,7 +4,6 @@ import (
 	"fmt"
 	"testing"
 
-	"github.com/nspcc-dev/neo-go/pkg/neotest"
 	"pgregory.net/rapid"
 
 	"verif/harness/chainkit"
@@ -23,7 +22,7 @@ func detBytes(label string, n int) []byte {
 func TestC04Stateful(t *testing.T) {
 	theT = t
 	col := ev.New("C04", "stateful",
-		"rapid state machine over put/putNamed/put(meta)/delete/setEACL on 3 owners and a pool of 12 blobs (version-field offsets 0,1,5,200; names from a 3-name pool, several blobs share a name; in half of the cases the alias domain of one name is registered by the committee in advance instead of by the contract), incl. re-put of a live container, delete of a missing one, put after delete, name reuse after deletion, too short blobs, invalid names and calls without the Alphabet; after every step the whole read API, NNS TXT records of every alias domain, the raw storage traces and the notifications of the transaction are compared with a registry model; non-trivial = a delete followed by a later operation on the same id or the same name",
+		"rapid state machine over put/putNamed/put(meta)/delete/setEACL on 3 owners and a pool of 12 blobs (version-field offsets 0,1,5,200; names from a 3-name pool, several blobs share a name; in half of the cases the alias domain of one name is registered by the committee in advance instead of by the contract), incl. re-put of a live container, delete of a missing one, put after delete, name reuse after deletion, too short blobs, invalid names, calls without the Alphabet and a jump of ten years (alias domains expire; named containers keep working and must still be deletable completely); after every step the whole read API, NNS TXT records of every alias domain, the raw storage traces and the notifications of the transaction are compared with a registry model; non-trivial = a delete followed by a later operation on the same id or the same name",
 		"fees are 0 (money is C05)", "a container's name and owner are functions of its blob (the Inner Ring derives them from the blob)", "alias domains are registered by the Container contract itself or, for one name, by the committee in advance (its transactions then carry the committee witness too)")
 	runRapid(t, col, func(rt *rapid.T, h *ev.History) {
 		n := rapid.SampledFrom([]int{1, 1, 3}).Draw(rt, "n")
@@ -53,19 +52,39 @@ func TestC04Stateful(t *testing.T) {
 			h.Op("the committee registers gamma.container in advance")
 			h.Mark("alias-domain-pre-registered")
 		}
+		decadePassed := false
 		deletedIDs := map[string]bool{}
 		deletedNames := map[string]bool{}
 		steps := rapid.IntRange(1, 30).Draw(rt, "steps")
 		for s := 0; s < steps; s++ {
-			kind := rapid.SampledFrom([]string{"put", "put", "put", "delete", "delete", "setEACL", "badput"}).Draw(rt, "kind")
+			kind := rapid.SampledFrom([]string{"put", "put", "put", "put", "put", "put", "delete", "delete", "delete", "delete", "setEACL", "setEACL", "badput", "badput", "decade"}).Draw(rt, "kind")
+			if kind == "decade" {
+				// alias domains are registered for ten years and never renewed: after that a named container
+				// keeps its alias string, its NNS record is unreachable, and deleting it must still remove everything
+				if !decadePassed {
+					w.c.AddBlock(uint64(3600*24*365*10+3600*24) * 1000)
+					decadePassed = true
+					for d := range m.doms {
+						m.expired[d] = true
+					}
+					h.Op("ten years pass: every alias domain registered so far expires")
+					h.Mark("alias-domains-expired")
+				}
+				w.compareRegistry(m, fmt.Sprintf("step %d", s))
+				continue
+			}
 			withAlpha := rapid.IntRange(0, 9).Draw(rt, "noAlpha") != 0
 			signers := w.alpha
 			if !withAlpha {
-				signers = []neotest.Signer{w.owners[0]}
+				signers = deficientSigners(rt, w.c, w.owners[0])
 			}
 			switch kind {
 			case "put":
 				b := rapid.SampledFrom(pool).Draw(rt, "blob")
+				if decadePassed && b.name != "" {
+					// (the zone of the aliases has expired as well: new names cannot be registered any more)
+					b = pool[0]
+				}
 				if preGamma && b.name == "gamma" && withAlpha {
 					signers = w.c.Both()
 				}
@@ -166,6 +185,9 @@ func TestC04Stateful(t *testing.T) {
 					fail("C04: delete of live %s alphabet=%v: got %s", b.label, withAlpha, o)
 				}
 				if o.Halt {
+					if l.alias != "" && m.expired[l.alias] {
+						h.Mark("delete-with-expired-alias-domain")
+					}
 					delete(m.live, k)
 					m.tomb[k] = true
 					deletedIDs[k] = true
